@@ -97,7 +97,7 @@ func makeViolation(o *Options, pc *PropertyConfig, ar *archRun, g *groupResult) 
 	}
 	v.ReplayPath = base + ".json"
 	reproduced := false
-	if w.Result.Status == "sat" && pc.Replay != nil && !o.NoReplay {
+	if pc.Replay != nil && !o.NoReplay {
 		if pkgDir, content, ok := pc.Replay(o, g, model); ok {
 			goFile := base + "_test.go.txt"
 			os.WriteFile(goFile, []byte(content), 0o644)
